@@ -231,8 +231,17 @@ def u4(ctx):
     in_loop = bool(loops) and bool(rets) and all(
         isinstance(r.ast.value.value, ast.Name) and isinstance(loops[0].ast.target, ast.Name)
         and r.ast.value.value.id == loops[0].ast.target.id for r in rets)
+    # ... of EVERY component: the return is not conditioned on the kind of component
+    typed = []
+    for r in rets:
+        for t, pol in cfg.required_conditions(r):
+            names = {x.id for x in ast.walk(t) if isinstance(x, ast.Name)}
+            if loops and isinstance(loops[0].ast.target, ast.Name) and loops[0].ast.target.id in names:
+                typed.append(src(t))
+    in_loop = in_loop and not typed
     obs.append(ctx.ob(in_loop, fi.qualname, fi.where, "returns component['UID'] inside the loop over subcomponents",
-                      "first component with a UID wins", "get_uid no longer returns <component>['UID'] for the components of the calendar in order"))
+                      "first component with a UID wins", "get_uid no longer returns <component>['UID'] for every component of the calendar in order%s"
+                      % ((": it only considers components with " + typed[0] + ", so objects of other kinds (e.g. VFREEBUSY) have no UID for the store and are neither checked nor registered") if typed else "")))
     # a component without UID is skipped, not fatal
     skip = False
     for r in rets:
@@ -298,4 +307,39 @@ def u5(ctx):
                                   "the comparison never holds, so entries are never released (or conflicts never detected)" % (src(t.ast), idx, REV.split(".")[-1], pos)))
         if nread < 2:
             raise AnalysisError("%s: only %d readers of %s compared with `name`" % (cq, nread, REV))
+    return obs
+
+
+@rule("C06", "U6", floor=4, kind="S",
+      desc="the uid maps are refreshed from the store's listing on every scan: _scan_uids cannot return without "
+           "iterating the listing, and its unchanged-file shortcut is keyed by (name, etag)")
+def u6(ctx):
+    obs = []
+    for cq in STORES:
+        fi = ctx.own_method(cq, "_scan_uids")
+        cfg = ctx.cfg(fi)
+        loops = [n for n in cfg.nodes if n.kind == "for" and isinstance(n.ast.iter, ast.Call)
+                 and (dotted(n.ast.iter.func) or "").split(".")[-1] in ("_iterblobs", "iter_with_etag")]
+        if not loops:
+            raise AnalysisError("%s._scan_uids: listing loop not found" % cq)
+        uncond = cfg.exit.id not in cfg.reachable([cfg.entry], block_nodes=loops, follow_exc=False)
+        obs.append(ctx.ob(uncond, fi.qualname, where(fi, loops[0]), "every scan iterates the listing", "no early return before the listing loop",
+                          "%s can return without iterating the store's listing (a 'nothing changed' shortcut): a write it did not notice - another "
+                          "process, or a writer between commit and index write - leaves a UID unregistered and a duplicate is accepted" % fi.short))
+        # the skip inside the loop
+        from .common import loop_body_nodes
+        body = loop_body_nodes(cfg, loops[0])
+        conts = [n for n in cfg.nodes if n.id in body and n.kind == "stmt" and isinstance(n.ast, ast.Continue)]
+        if not conts:
+            obs.append(ctx.ok(fi.qualname, where(fi, loops[0]), "no unchanged-file shortcut", "every listed file is parsed"))
+        for c in conts:
+            req = cfg.required_conditions(c)
+            keyed = False
+            for t, pol in req:
+                if pol and isinstance(t, ast.Compare) and isinstance(t.ops[0], ast.Eq) and FWD in src(t) and "[name]" in src(t).replace(" ", "") and "etag" in src(t):
+                    keyed = True
+            obs.append(ctx.ob(keyed, fi.qualname, where(fi, c), "shortcut keyed by (name, etag)",
+                              "skip only if %s[name] holds this etag" % FWD.split(".")[-1],
+                              "a listed file is skipped under `%s`, which is not 'this NAME is already mapped with this etag': the same bytes under "
+                              "another name (or a file returning to earlier bytes) are never (re)registered" % " and ".join(src(t) for t, pol in req if pol)))
     return obs
